@@ -156,6 +156,18 @@ static std::string gen_op(std::mt19937& r, const Cfg& g, int tid, int i, const s
         if (tid == 0) return "ins " + std::to_string(100 + i) + " " + val() + " iu 50";
         return (r() % 2) ? std::string("size") : std::string("empty");
     }
+    if (scenario == "bigrange")
+    {
+        // thread 0 reads keys 0..199 in one range call; thread 1 rewrites the first and the last of them in
+        // one range call: an atomic find_range sees both old or both new
+        if (tid == 0)
+        {
+            std::string s = "findr 0 ";
+            for (int j = 0; j < 200; ++j) { if (j) s += ","; s += std::to_string(j); }
+            return s;
+        }
+        return "insr iu 0:" + val() + ":50,199:" + val() + ":50";
+    }
     std::vector<std::string> kinds = {"ins", "ins", "find", "find", "erase", "insr", "findr", "eraser", "size", "empty"};
     if (g.kind == "lfu" || g.kind == "lfuda") kinds.push_back("findc");
     if (g.kind == "lfuda") kinds.push_back("age");
@@ -260,6 +272,8 @@ static int run_hist(const std::string& kind, unsigned seed, int n, int threads, 
         auto c = make(g);
         if (scenario == "poll")
             for (size_t i = 0; i < g.cap; ++i) c->insert(i, i, 3, 50);
+        if (scenario == "bigrange")
+            for (size_t i = 0; i < 200; ++i) c->insert(i, 7, 3, 50);
         std::vector<std::vector<HRec>> recs(threads);
         std::atomic<int>               go{0};
         g_stamp = 1;
@@ -286,6 +300,9 @@ static int run_hist(const std::string& kind, unsigned seed, int n, int threads, 
         if (scenario == "poll")
             for (size_t i = 0; i < g.cap; ++i)
                 std::printf("h 99 0 0 %ld ins %zu %zu iu 50 => b1\n", (long)g_now, i, i);
+        if (scenario == "bigrange")
+            for (size_t i = 0; i < 200; ++i)
+                std::printf("h 99 0 0 %ld ins %zu 7 iu 50 => b1\n", (long)g_now, i);
         for (auto& v : recs)
             for (auto& r : v)
                 std::printf("h %d %lu %lu %ld %s => %s\n", r.tid, (unsigned long)r.inv, (unsigned long)r.res, (long)g_now, r.op.c_str(), r.out.c_str());
